@@ -357,6 +357,34 @@ Theorem C05_angerr_crit : forall (erf : R -> R) (a b fl sra sdec era edec err : 
 Proof. exact angerr_crit_R. Qed.
 Print Assumptions C05_angerr_crit.
 
+(* ---- extension: utils/coords.angular_separation with its psi_floor argument
+   (`if psi_floor is not None: psi = np.where(psi < psi_floor, psi_floor, psi)`), all reals *)
+Theorem C05_angsep_floor : forall (erf : R -> R) (ra1 dec1 ra2 dec2 f : R),
+  angsep_floor (RNum erf) ra1 dec1 ra2 dec2 None
+    = acos (sin dec1 * sin dec2 + cos dec1 * cos dec2 * cos (ra1 - ra2))%R
+  /\ angsep_floor (RNum erf) ra1 dec1 ra2 dec2 (Some f)
+    = Rmax f (acos (sin dec1 * sin dec2 + cos dec1 * cos dec2 * cos (ra1 - ra2)))%R.
+Proof.
+  intros erf ra1 dec1 ra2 dec2 f.
+  split; [exact (angsep_floor_none erf ra1 dec1 ra2 dec2)|exact (angsep_floor_some erf ra1 dec1 ra2 dec2 f)].
+Qed.
+Print Assumptions C05_angsep_floor.
+
+(* the floored value is never below the floor nor below the distance, is one of the two, and
+   stays an angle in [0, pi] for a floor in [0, pi] *)
+Theorem C05_angsep_floor_props : forall (erf : R -> R) (ra1 dec1 ra2 dec2 f : R),
+  let v := angsep_floor (RNum erf) ra1 dec1 ra2 dec2 (Some f) in
+  let psi := angsep_floor (RNum erf) ra1 dec1 ra2 dec2 None in
+  (f <= v /\ psi <= v /\ (v = f \/ v = psi) /\ (f <= psi -> v = psi) /\ (psi < f -> v = f)
+   /\ (f <= PI -> 0 <= f -> 0 <= v <= PI))%R.
+Proof. exact angsep_floor_props. Qed.
+Print Assumptions C05_angsep_floor_props.
+
+Example C05_nonvacuous_angsep_floor : forall erf : R -> R,
+  (angsep_floor (RNum erf) 0 0 0 0 (Some 1) = 1 /\ angsep_floor (RNum erf) 0 0 0 0 None = 0
+   /\ angsep_floor (RNum erf) 0 0 0 0 (Some (-1)) = 0)%R.
+Proof. exact angsep_floor_example. Qed.
+
 (* ---- the concrete classes: which class applies which criterion (real-number reading) *)
 
 (* DecBandEventSectionMethod written out: the pairs are those with |dec_event - dec_source| < delta *)
